@@ -19,6 +19,7 @@ leftovers after a handled failure; resumed store = uninterrupted store)."""
 from __future__ import annotations
 
 import ast
+import bz2
 import concurrent.futures as cf
 import gzip
 import io
@@ -52,25 +53,35 @@ HBASE = {"BaseException": 0, "Exception": 1, "OSError": 2, "IOError": 2, "Enviro
 
 
 def read_handlers():
-    """(enter clause, exit clause, commit kind, zip commit kind) of cogent3.util.io.atomic_write, from the source text.
-    Anything that is not the recognised shape raises CheckError (no guessing)."""
+    """The except-clauses of atomic_write._get_fileobj / __exit__, the position of close() relative to the commit, and how
+    _close_rename_zip commits, read from the source text.  Never guesses: whatever is not of the recognised shape is
+    recorded in `problems` (the tie source <-> model is then broken: a proof-stage problem) and replaced by the most
+    conservative reading (a clause that catches nothing; zip commit unknown = zip programs not compared with the model),
+    so that the kill / fault enumeration still runs and searches for a concrete failing input."""
     path = os.path.join(str(core.REPO), "src", "cogent3", "util", "io.py")
-    tree = ast.parse(open(path).read())
+    H = dict(enter=[], exit=[], enter_names=["<unreadable>"], exit_names=["<unreadable>"], path=path, zipcommit="unknown", problems=[])
+    try:
+        tree = ast.parse(open(path).read())
+    except (OSError, SyntaxError) as e:
+        H["problems"].append(f"cannot parse {path}: {e}")
+        return H
     cls = [n for n in tree.body if isinstance(n, ast.ClassDef) and n.name == "atomic_write"]
     if len(cls) != 1:
-        raise core.CheckError("C19 source reader: class atomic_write not found in util/io.py")
+        H["problems"].append("class atomic_write not found in util/io.py")
+        return H
     meth = {n.name: n for n in cls[0].body if isinstance(n, ast.FunctionDef)}
 
     def clause(name):
+        """(codes, names) or a string saying what is not recognised"""
         if name not in meth:
-            raise core.CheckError(f"C19 source reader: atomic_write.{name} not found")
+            return f"atomic_write.{name} not found"
         tries = [n for n in ast.walk(meth[name]) if isinstance(n, ast.Try)]
-        if len(tries) != 1 or len(tries[0].handlers) != 1 or tries[0].finalbody:
-            raise core.CheckError(f"C19 source reader: atomic_write.{name} is not 'one try with one except-clause'")
+        if len(tries) != 1 or len(tries[0].handlers) != 1 or tries[0].finalbody or tries[0].orelse:
+            return f"atomic_write.{name} is not 'one try with one except-clause, no finally / else'"
         h = tries[0].handlers[0]
         calls = [ast.unparse(c.func) for c in ast.walk(ast.Module(body=h.body, type_ignores=[])) if isinstance(c, ast.Call)]
         if "shutil.rmtree" not in calls or not any(isinstance(s, ast.Raise) and s.exc is None for s in h.body):
-            raise core.CheckError(f"C19 source reader: the except-clause of atomic_write.{name} is not 'rmtree; raise'")
+            return f"the except-clause of atomic_write.{name} is not 'rmtree; raise'"
         if h.type is None:
             names = ["BaseException"]
         elif isinstance(h.type, ast.Name):
@@ -78,22 +89,35 @@ def read_handlers():
         elif isinstance(h.type, ast.Tuple) and all(isinstance(e, ast.Name) for e in h.type.elts):
             names = [e.id for e in h.type.elts]
         else:
-            raise core.CheckError(f"C19 source reader: cannot read the exception classes of atomic_write.{name}")
+            return f"cannot read the exception classes of atomic_write.{name}"
+        if name == "__exit__":
+            # the model program closes the temporary file BEFORE the commit: the try-block must start with the close
+            body = tries[0].body
+            if not body or ast.unparse(body[0]) != "self._file.close()":
+                return "atomic_write.__exit__ does not close the temporary file first (the model's Close precedes the commit)"
+            after = [ast.unparse(x) for b in body[1:] for x in ast.walk(b) if isinstance(x, ast.Call)]
+            if not any(c.startswith("self._close_func(") for c in after):
+                return "atomic_write.__exit__ does not call self._close_func after closing"
         return [HBASE.get(n, 5) for n in names], names
 
+    for key, name in (("enter", "_get_fileobj"), ("exit", "__exit__")):
+        r = clause(name)
+        if isinstance(r, str):
+            H["problems"].append(r)
+        else:
+            H[key], H[key + "_names"] = r
     # how an archive is committed: appended to where it is, or staged and moved into place
     if "_close_rename_zip" not in meth:
-        raise core.CheckError("C19 source reader: atomic_write._close_rename_zip not found")
-    ztext = ast.unparse(meth["_close_rename_zip"])
-    if "replace(self._in_zip)" in ztext:
-        zipcommit = "staged"
-    elif "ZipFile(self._in_zip, 'a')" in ztext:
-        zipcommit = "append"
+        H["problems"].append("atomic_write._close_rename_zip not found")
     else:
-        raise core.CheckError("C19 source reader: cannot tell how atomic_write._close_rename_zip commits the archive")
-    enter, enter_names = clause("_get_fileobj")
-    exit_, exit_names = clause("__exit__")
-    return dict(enter=enter, exit=exit_, enter_names=enter_names, exit_names=exit_names, path=path, zipcommit=zipcommit)
+        ztext = ast.unparse(meth["_close_rename_zip"])
+        if "replace(self._in_zip)" in ztext:
+            H["zipcommit"] = "staged"
+        elif "ZipFile(self._in_zip, 'a')" in ztext:
+            H["zipcommit"] = "append"
+        else:
+            H["problems"].append("cannot tell how atomic_write._close_rename_zip commits the archive")
+    return H
 
 
 # ------------------------------------------------------------------ scenarios
@@ -116,6 +140,9 @@ def scenarios(tier):
             S("dictarray", "d.tsv.zip", old),
             S("atomic", "z.txt", old, in_zip="arch.zip"),
             S("seqs", "s.phylip.zip", old, fail=True),
+            # compressed streams get their end-of-stream trailer at close(): writers that leave closing to the context manager
+            S("table", "t.tsv.gz", old), S("tree", "t.nwk.gz", old), S("dictarray", "d.tsv.gz", old), S("atomic", "z.txt.gz", old),
+            S("tree", "t.nwk.bz2", old), S("dictarray", "d.tsv.bz2", old), S("atomic", "z.txt.bz2", old), S("aln", "x.json.gz", old),
         ]
         if old:
             # configuration dimension: a destination without the owner-write bit (replace must still be one step)
@@ -128,9 +155,9 @@ def scenarios(tier):
             S("seqs", "s.phylip", old, fail=True), S("seqs", "s.phylip.gz", old, fail=True),
             S("tree", "t.nwk", old), S("tree", "t.json", old), S("tree", "t.nwk", old, fail=True), S("tree", "t.nwk.gz", old, fail=True),
             S("tree", "t.nwk.zip", old, xraise=True), S("tree", "t.json.zip", old),
-            S("table", "t.csv", old), S("table", "t.tsv.gz", old), S("table", "t.json", old), S("table", "t.pickle", old),
+            S("table", "t.csv", old), S("table", "t.json.gz", old), S("table", "t.json", old), S("table", "t.pickle", old),
             S("table", "t.tsv.gz", old, fail=True), S("table", "t.json.zip", old), S("atomic", "z.txt.gz", old, fail="badmode"),
-            S("dictarray", "d.tsv", old), S("dictarray", "d.tsv.gz", old), S("dictarray", "d.tsv", old, fail=True),
+            S("dictarray", "d.tsv", old), S("aln", "x.fasta.bz2", old), S("tree", "t.json.bz2", old), S("dictarray", "d.tsv", old, fail=True),
             S("treecoll", "c.trees", old), S("treecoll", "c.trees", old, fail=True), S("treecoll", "c.trees.gz", old, fail=True),
             S("treecoll", "c.trees.zip", old, xraise=True),
             S("atomic", "z.txt.zip", old, fail="badmode"),
@@ -157,7 +184,8 @@ def is_zip(sc):
 
 
 def writer_tag(sc):
-    return sc["writer"] + ("-inzip" if sc.get("in_zip") else "-zip" if is_zip(sc) else "")
+    return sc["writer"] + ("-inzip" if sc.get("in_zip") else "-zip" if is_zip(sc) else
+                           "-gz" if dest_name(sc).endswith((".gz", ".bz2")) else "")
 
 
 def fail_tag(sc):
@@ -193,6 +221,15 @@ def zip_members(content):
         return None
 
 
+def decompressed(content, name):
+    """the content as a reader of the file would see it; raises when the stream is truncated / corrupt"""
+    if name.endswith(".gz"):
+        return gzip.decompress(content)
+    if name.endswith(".bz2"):
+        return bz2.decompress(content)
+    return content
+
+
 def new_ref(trace, sc):
     """the content a completed write produced (the trace run), None when the trace did not complete"""
     if trace["outcome"] != "ok" or trace["dest"] is None:
@@ -200,12 +237,10 @@ def new_ref(trace, sc):
     if is_zip(sc):
         ms = zip_members(trace["dest"])
         return ms[-1] if ms else None
-    if dest_name(sc).endswith(".gz"):
-        try:
-            return gzip.decompress(trace["dest"])
-        except Exception:  # noqa: BLE001
-            return None
-    return trace["dest"]
+    try:
+        return decompressed(trace["dest"], dest_name(sc))
+    except Exception:  # noqa: BLE001
+        return None
 
 
 def dest_code(content, new, sc):
@@ -225,12 +260,11 @@ def dest_code(content, new, sc):
         return 3
     if content == OLD:
         return 1
-    c = content
-    if dest_name(sc).endswith(".gz"):
-        try:
-            c = gzip.decompress(content)
-        except Exception:  # noqa: BLE001
-            return 3
+    try:
+        # compressed targets are judged by what decompresses: a truncated stream is neither the previous nor the new content
+        c = decompressed(content, dest_name(sc))
+    except Exception:  # noqa: BLE001
+        return 3
     if c == OLD:
         return 1
     if new is not None and c == new:
@@ -351,7 +385,7 @@ def check_part_a(rep, scs, res, H, pr, disagreements, samples, nontrivial, dist)
         completes = trace["outcome"] == "ok"
         old_code = 1 if sc["old"] else 0
         wt, ft = writer_tag(sc), fail_tag(sc)
-        dist[("zip" if is_zip(sc) else "gz" if dest_name(sc).endswith(".gz") else "plain") + ":" + ("fail" if not completes else "ok")] += 1
+        dist[("zip" if is_zip(sc) else "gz" if dest_name(sc).endswith((".gz", ".bz2")) else "plain") + ":" + ("fail" if not completes else "ok")] += 1
         for ri, r in enumerate(runs):
             n_eval += 1
             dc = dest_code(r["dest"], new, sc)
@@ -414,7 +448,7 @@ def check_part_a(rep, scs, res, H, pr, disagreements, samples, nontrivial, dist)
             if len(samples) < 6 and mode == "kill" and k == 4 and is_zip(sc):
                 samples.append(dict(scenario=sc, mode=mode, k=k, dest_code=dc, leftovers=r["leftovers"]))
     # the except-clauses read from the source must cover every handled class (the premise of handled_failure_no_temp_any_class)
-    if cov is False:
+    if cov is False and not H["problems"]:
         rep.violation("handlers:do-not-cover-every-exception", dict(
             handlers=dict(_get_fileobj=H["enter_names"], __exit__=H["exit_names"]), source=H["path"],
             expected_by_spec="both cleanup clauses of atomic_write catch every Exception",
@@ -424,6 +458,10 @@ def check_part_a(rep, scs, res, H, pr, disagreements, samples, nontrivial, dist)
 
 
 # ------------------------------------------------------------------ part B (resume)
+
+TRICKY_NAMES = [(["sofa", "a", "alfa"], "fa"), (["alfasta", "fasta", "afastab"], "fasta"),
+                (["fa", "sofab", "so", "sofa"], "fa"), (["delta", "ta", "del", "elta"], "ta")]
+
 
 def resume_jobs(tier, rng):
     jobs = []
@@ -438,6 +476,17 @@ def resume_jobs(tier, rng):
                                 if tier == "quick" and n == 3 and idfn and store == "sqlite" and mode1 == "w" and len(bad) > 1:
                                     continue
                                 jobs.append(dict(n=n, k=k, bad=list(bad), mode1=mode1, store=store, idfn=idfn))
+    # identifiers that END in the suffix text, CONTAIN it, equal it, or are prefixes / suffixes of one another
+    # (membership tests on the store must compare whole identifiers and whole dotted suffixes)
+    for names, suffix in TRICKY_NAMES if tier == "thorough" else TRICKY_NAMES[:2]:
+        n = len(names)
+        for k in range(n + 1):
+            for bad in [[]] + [[i] for i in range(n)]:
+                for store in ("dir", "sqlite"):
+                    for idfn in (False, True):
+                        if idfn and bad and tier == "quick":
+                            continue
+                        jobs.append(dict(n=n, k=k, bad=bad, mode1="a", store=store, idfn=idfn, names=names, suffix=suffix))
     # a store that already holds records of an earlier run
     for n in ns:
         for store in ("dir", "sqlite"):
@@ -465,16 +514,18 @@ def run_resume_jobs(jobs):
     return out
 
 
-def rid(name):
-    """record / input name -> input number: 's03.fasta', 's03', 'not_completed/s03.json' -> 3"""
+def rid(name, job):
+    """record / input name -> input number: 's03.fasta', 's03', 'not_completed/s03.json', 'md5/s03.txt' -> 3"""
     b = os.path.basename(name)
-    return int(b[1:3])
+    b = b.rsplit(".", 1)[0] if "." in b else b
+    names = job.get("names") or [f"s{i:02d}" for i in range(job["n"])]
+    return names.index(b)
 
 
 def resume_key(job, what):
     # coarse: what went wrong x were there failing inputs x store type (+ user id function when nothing else is special)
     return f"resume:{what}:{'bad' if job.get('bad') else 'ok'}:{job.get('store', 'dir')}" + \
-        (":idfn" if job.get("idfn") and not job.get("bad") else "")
+        (":idfn" if job.get("idfn") and not job.get("bad") else "") + (":tricky-ids" if job.get("names") and what != "raised" else "")
 
 
 def check_resume(rep, jobs, rres, pr, disagreements, samples, nontrivial):
@@ -483,7 +534,7 @@ def check_resume(rep, jobs, rres, pr, disagreements, samples, nontrivial):
         if r.get("machinery_error"):
             raise core.CheckError("resume machinery: " + r["machinery_error"])
         if not job.get("pre"):
-            order = [rid(x) for x in r["order"]]
+            order = [rid(x, job) for x in r["order"]]
             ridx[j] = len(rcases)
             rcases.append(f"({zlist(order)}, {zlist(job['bad'])}, {zlit(job['k'])})")
     rmodel = None
@@ -509,16 +560,25 @@ def check_resume(rep, jobs, rres, pr, disagreements, samples, nontrivial):
                                observed_impl=dict(diff=diff, final=sorted(r["final"]), uninterrupted=sorted(r["uninterrupted"])),
                                broken="resumed store differs from the uninterrupted run"))
             continue
-        completed_before = {rid(p) for p in r["after_kill"] if "/" not in p}
+        completed_before = {rid(p, job) for p in r["after_kill"] if "/" not in p}
         expected_proc = sorted(i for i in range(n) if i not in completed_before)
-        got = sorted(rid(p) for p in r["processed_resume"])
-        if got != expected_proc:
+        got = sorted(rid(p, job) for p in r["processed_resume"])
+        rewritten = sorted(key for key, st in r.get("stamps_before", {}).items() if r.get("stamps_after", {}).get(key) != st)
+        if rewritten:
+            # a completed record was written again (same content or not): inode/mtime of its file, or rowid/log id of its row, changed
+            rep.violation(resume_key(job, "rewrote-completed"),
+                          dict(resume_job=job, expected_by_spec="records completed before the interruption are not written again",
+                               observed_impl=dict(rewritten=rewritten, stamps_before={k_: r["stamps_before"][k_] for k_ in rewritten},
+                                                  stamps_after={k_: r["stamps_after"].get(k_) for k_ in rewritten},
+                                                  processed_on_resume=r["processed_resume"]),
+                               broken="the resumed run rewrote an already completed record"))
+        elif got != expected_proc:
             rep.violation(resume_key(job, "processed"), dict(resume_job=job, expected_by_spec=expected_proc, observed_impl=got,
                           broken="resume did not process exactly the inputs without a completed record"))
         elif rmodel is not None and j in ridx:
             m = rmodel[ridx[j]]
-            comp = lambda snap: sorted(rid(p) for p in snap if "/" not in p)  # noqa: E731
-            nc = lambda snap: sorted(rid(p) for p in snap if p.startswith("not_completed/"))  # noqa: E731
+            comp = lambda snap: sorted(rid(p, job) for p in snap if "/" not in p)  # noqa: E731
+            nc = lambda snap: sorted(rid(p, job) for p in snap if p.startswith("not_completed/"))  # noqa: E731
             obs = [got, comp(r["final"]), nc(r["final"]), comp(r["uninterrupted"]), nc(r["uninterrupted"])]
             if obs != [sorted(x) for x in m]:
                 disagreements.append(dict(key="resume", resume_job=job, observed_impl=obs, model_output=jsonable(m)))
@@ -546,6 +606,14 @@ def run(tier: str, seed: int) -> int:
     disagreements, samples, nontrivial = [], [], set()
     dist = {k: 0 for k in ("plain:ok", "plain:fail", "gz:ok", "gz:fail", "zip:ok", "zip:fail")}
     H = read_handlers()
+    if H["problems"]:
+        # the tie between the source text and the model's handler set / program shape is broken: no obligation counts as
+        # discharged for this tree; the enumeration below searches for a concrete failing input (conclude() reports the
+        # broken tie as `no-failing-input-found` when it finds none)
+        pr["problems"] = list(pr["problems"]) + ["source tie broken (atomic_write reader, fail-closed): " + x for x in H["problems"]]
+        pr["discharged"] = 0
+        rep.coverage.update(discharged=0)
+        rep.notes.append("source tie broken: " + "; ".join(H["problems"]))
     # ---- part A
     scs, res = part_a(tier)
     n_a, n_model = check_part_a(rep, scs, res, H, pr, disagreements, samples, nontrivial, dist)
